@@ -2,8 +2,10 @@
 replicas (independent Options singleton, independent caches, independent classes).  DESIGN 2.3."""
 from __future__ import annotations
 
+import array
 import functools
 import importlib
+from collections import abc
 import os
 import sys
 
@@ -46,9 +48,19 @@ class Replica:
         seen = set()
 
         def note(owner, name, v):
-            if isinstance(v, (dict, list, set)) and id(v) not in seen and not name.startswith('__'):
+            if id(v) in seen or name.startswith('__'):
+                return
+            if isinstance(v, (dict, list, set)):
                 seen.add(id(v))
                 out.append((f'{owner}.{name}', v, v.copy()))
+            elif isinstance(v, (abc.MutableMapping, abc.MutableSet, abc.MutableSequence)) and not isinstance(v, (bytearray, array.array)):
+                # any other container a cache might be kept in (WeakValueDictionary, OrderedDict subclass, deque ...)
+                seen.add(id(v))
+                try:
+                    snap = dict(v) if isinstance(v, abc.MutableMapping) else set(v) if isinstance(v, abc.MutableSet) else list(v)
+                except Exception:
+                    return
+                out.append((f'{owner}.{name}', v, snap))
 
         for mname in sorted(self.mods):
             m = self.mods[mname]
@@ -73,9 +85,22 @@ class Replica:
             elif isinstance(obj, list):
                 if obj != snap:
                     obj[:] = snap
-            elif obj != snap:
+            elif isinstance(obj, set):
+                if obj != snap:
+                    obj.clear()
+                    obj.update(snap)
+            elif isinstance(obj, abc.MutableMapping):
+                if len(obj) != len(snap) or any(k not in obj for k in snap):
+                    obj.clear()
+                    obj.update(snap)
+            elif isinstance(obj, abc.MutableSet):
+                if set(obj) != snap:
+                    obj.clear()
+                    for x in snap:
+                        obj.add(x)
+            elif list(obj) != snap:
                 obj.clear()
-                obj.update(snap)
+                obj.extend(snap)
 
     # -- cache seam (S5) -------------------------------------------------------------------------------
     def caches(self):
